@@ -310,8 +310,9 @@ func (gen *generator) irGlobal(new *ir.Global, old *ast.GlobalDecl) error {
 		// (optional) Comdat.
 		case *ast.Comdat:
 			// When comdat name is omitted, the global name is used as an implicit
-			// comdat name.
-			name := new.Name()
+			// comdat name. Note, new.Name() returns numeric names in quoted form
+			// (e.g. `"42"`), whereas comdats are indexed by name as is.
+			name := new.GlobalName
 			if n, ok := globalField.Name(); ok {
 				name = comdatName(n)
 			}
@@ -583,8 +584,9 @@ func (gen *generator) irFuncHeader(new *ir.Func, old ast.FuncHeader) error {
 		// (optional) Comdat.
 		case *ast.Comdat:
 			// When comdat name is omitted, the function name is used as an implicit
-			// comdat name.
-			name := new.Name()
+			// comdat name. Note, new.Name() returns numeric names in quoted form
+			// (e.g. `"42"`), whereas comdats are indexed by name as is.
+			name := new.GlobalName
 			if n, ok := funcHdrField.Name(); ok {
 				name = comdatName(n)
 			}
